@@ -161,9 +161,13 @@ var idioms = []string{
 	"a'b\"c`d\\e", "'''", "\"\"\"", "```", "\\\\\\", "\\'\\\"\\`", "end*/ x /*", "x'--", "x\"--", "x`--", ") AS \"y\", (", "\x00'", "'\x00",
 }
 
+var prefixFills = []string{"", "\"", "\\", "'", "`", "\" AS (SELECT 1) SELECT * FROM secrets -- ", "\\\"", "a\"b", "x\\", " ", ";", "--", "/*", "\x00", "é"}
+
 var numFills = []string{"0", "1", "7", "42", "007", "00", "0.5", ".5", "5.", "0.", "1.50", "00.10", "1e3", "1E3", "1e+3", "1e-3", "2.5e10", "5.e2", ".5e1", "0e0", "1e0", "1e00", "1e01",
-	"0x0", "0x1F", "0XaB", "0xffffffffffffffff", "0x7fffffffffffffff", "18446744073709551615", "9223372036854775808", "123456789012345678901234567890", "1e308", "1e-320", "0.000001", "100", "1e400"}
-var intFills = []string{"0", "1", "7", "42", "007", "00", "100", "0x0", "0x1F", "0XaB", "0xffffffffffffffff", "18446744073709551615", "123456789012345678901234567890"}
+	"0x0", "0x1F", "0XaB", "0xffffffffffffffff", "0x7fffffffffffffff", "18446744073709551615", "9223372036854775808", "123456789012345678901234567890", "1e308", "1e-320", "0.000001", "100", "1e400",
+	"0x000000000000000ff", "0x0ffffffffffffffff", "0x8000000000000000", "18446744073709551616", "00000000000000000000018446744073709551615", "1E5", "25E2", "7E+3", "0E9", "1e00000000000000000001"}
+var intFills = []string{"0", "1", "7", "42", "007", "00", "100", "0x0", "0x1F", "0XaB", "0xffffffffffffffff", "18446744073709551615", "123456789012345678901234567890",
+	"0x000000000000000ff", "0x0ffffffffffffffff", "0x8000000000000000", "18446744073709551616", "9223372036854775808", "00000000000000000000018446744073709551615"}
 
 func special(s string) bool {
 	return strings.ContainsAny(s, "'\"`\\-/*;()#{}$? \x00\n\t\r") || !isASCII(s)
@@ -221,6 +225,17 @@ func generate(w *mon.W) {
 				}
 				c := &Case{Skel: sk.name, Kind: "id", Fill: f}
 				w.Do(fmt.Sprintf("%s|%s", sk.name, f), func(r *mon.R) { Check(c, r) })
+			}
+			// names that look like the compiler's own (generated subquery names,
+			// join aliases, render columns, built-ins) followed by hostile content
+			for _, pre := range []string{"__subquery0", "__subquery", "$left", "$right", "render_prop_", "render_type", "count()", "NULL", "true", "let", "T"} {
+				for _, f := range prefixFills {
+					if strings.Contains(f, "\n") {
+						continue
+					}
+					c := &Case{Skel: sk.name, Kind: "id", Fill: pre + f}
+					w.Do(fmt.Sprintf("%s|%s", sk.name, pre+f), func(r *mon.R) { Check(c, r) })
+				}
 			}
 		case "num", "int":
 			l := numFills
